@@ -13,6 +13,10 @@
 (*          z-shift), consts, and the rows of the returned tables /        *)
 (*          written files of create_wedge_list_sg(_batch),                 *)
 (*          create_wedge_list_em_batch, wedge_list_sg_to_em                *)
+(* The same records are used for call SEQUENCES on one set of files and    *)
+(* argument objects in one process: every call, and every earlier result   *)
+(* re-inspected after the later calls, is one trace judged against the     *)
+(* file contents.                                                          *)
 (***************************************************************************)
 EXTENDS Integers, Sequences, FiniteSets, TLC, Json, IOUtils
 
@@ -66,6 +70,13 @@ WedgeClause ==
     CASE T.what = "sg"    -> IF T.got = TM!WedgeSg(T.tomos, T.consts) THEN "none" ELSE "C17_WedgeRows"
       [] T.what = "em"    -> IF T.got = TM!WedgeEm(T.tomos) THEN "none" ELSE "C17_WedgeEmMinMax"
       [] T.what = "sg2em" -> IF T.got = TM!SgToEm(TM!WedgeSg(T.tomos, T.consts)) THEN "none" ELSE "C17_SgToEm"
+      \* tilt angles and dose both taken from one mdoc (images in acquisition order): the i-th ascending tilt is
+      \* paired with the dose of that image
+      [] T.what = "sg_mdoc" ->
+            LET t == T.tomos[1]
+                tomo == [id |-> t.id, tilts |-> [k \in DOMAIN T.imgs |-> T.imgs[k].tilt], ctf |-> t.ctf,
+                         dose |-> TM!MdocDose(T.imgs, TRUE), dim |-> t.dim, zshift |-> t.zshift]
+            IN  IF T.got = TM!WedgeSg(<<tomo>>, T.consts) THEN "none" ELSE "C17_WedgeRows"
 
 -----------------------------------------------------------------------------
 NSteps == IF T.kind = "mdoc" THEN Len(T.steps) ELSE 1
